@@ -8,13 +8,18 @@
      InitParams SetParam Run                                      (parameters, start of the run)
      PublishBegin Deliver PublishEnd                              (synchronous nested fan-out)
      Wake LoggerRow                                               (simpy event loop)
+     StartProc ProcPublish NestedPublish      (FreeNodes only: trace validation of real nodes whose
+                                               timeouts / callbacks are not modelled -- Simulator, AttitudeEstimator)
 
    The fan-out is modelled by an explicit delivery STACK of frames [topic, msg, i]: frame
    = one activation of `for s in core._subscribers[topic]: s.callback(msg)`, i = loop
    position.  A callback that publishes (relay node, like the estimator publishing from
    imu_callback) pushes a new frame on top: nested, synchronous.
 
-   Node behaviours of a subscriber:  sink | relay(out, budget) | follower | logger(=id 0).
+   Node behaviours of a subscriber:  sink | relay(out, budget) | follower | free | logger(=id 0).
+   Configurations (cfg files): AcyclicRelays (Acyclic = TRUE: every invariant incl. InOrder must hold),
+   free (Acyclic = FALSE: InOrderUnlessReentrant must hold, InOrder alone is expected to fail -- the
+   re-entrant same-topic publication, known finding publish/order/reentrant-same-topic).
    Messages are globally unique integers 1..nmsg.  Time is an integer number of ticks.
    NULL is -1 for integers and "none" for strings.
 
@@ -43,7 +48,7 @@ CONSTANTS
     MaxPub,        \* bound on the number of messages
     Horizon,       \* bound on simulated time
     Budgets,       \* relay budgets (a relay republishes its first `budget` messages)
-    Kinds,         \* subset of {"sink","relay","follower"}
+    Kinds,         \* subset of {"sink","relay","follower","free"}
     Acyclic,       \* TRUE: only wirings whose relay graph has no cycle
     DueFirst,      \* TRUE: external calls during the run only when no event is due now
     PostRunSetup,  \* TRUE: set-up attempts are also explored after Run
